@@ -1,6 +1,6 @@
 /-
   C05 — `Matrix::Determinant`, `Invertible`, `Inverse` (src/Linear_Algebra.cpp:654-665, 696-768,
-  786-816), exact rationals, core-only.  As coded after fix commit f73d8c5 (partial pivoting).
+  786-816), exact rationals, core-only.  As coded after fix commits f73d8c5 (partial pivoting) and f4da51d (diagonal test before the final scaling).
 -/
 import LpModel.C04
 namespace Lp.C05
@@ -76,14 +76,19 @@ def gjLoop (N : Nat) : List Nat → Mat → Option Mat
 def normalise (N : Nat) (W : Mat) : Mat :=
   ofFn N N (fun i j => W.get i (j + N) / W.get i i)
 
-/-- `Matrix::Inverse` -/
+/-- the test in front of the final scaling (fix f4da51d): "a diagonal element vanishes in the
+    elimination".  In exact arithmetic this is dead code (theorem `diagZero_dead`); in floating
+    point a finished diagonal entry can cancel to 0 while a later, rounding-residue pivot is used. -/
+def diagZero (N : Nat) (W : Mat) : Bool := (List.range N).any (fun i => decide (W.get i i = 0))
+
+/-- `Matrix::Inverse` (as coded after f73d8c5 and f4da51d) -/
 def inverse (A : Mat) : Except Err Mat :=
   if A.rows ≠ A.cols then .error .diag
   else if !invertible A then .error .diag
   else
     match gjLoop A.rows (List.range A.rows) (augment A) with
     | none => .error .diag
-    | some W => .ok (normalise A.rows W)
+    | some W => if diagZero A.rows W then .error .diag else .ok (normalise A.rows W)
 
 /-! ## exact norms for the condition number reported by the driver -/
 
